@@ -99,6 +99,16 @@ def conditions(tier):
             bounds='2 members; identifiers of 2-3 words over {FOO,BAR,A}; values: every integer; '
                    'private flags, bitfield, typedef/tag form symbolic',
             finding_classifier=_classify_enum))
+    # a member with a (skip) comment block of its own is still listed
+    for sk in (0, 1):
+        conds.append(ch.Cond(
+            'h_c13', 'enum_members',
+            [('i0', 'int'), ('i1', 'int')] + vals + [('bitfield', 'bool')],
+            pre=['0 <= i0 < %d' % len(H.IDENTS2), '0 <= i1 < %d' % len(H.IDENTS2)],
+            fixed=dict(fixed_unused, pool=2, n=2, p0=False, p1=False, typedef=True, skip_member=sk),
+            timeout=170 if tier == 'quick' else 900, name='enum[2 members, member %d has a (skip) block]' % sk,
+            bounds='2 members with 2-word identifiers over {FOO,BAR,BAZ,A}; one member documented by a block with (skip); '
+                   'values: every integer', finding_classifier=_classify_enum))
     # three members, identifiers FOO_<1..2 words over {FOO,BAR,A}> (shared prefixes of 1 and 2 words)
     nF = len(H.IDENTSF)
     for i0 in range(nF):
